@@ -378,6 +378,29 @@ func genC07(t *rapid.T) c07Case {
 			}
 		}
 	}
+	if wide && w >= 128 && rapid.IntRange(0, 2).Draw(t, "sharedMissing") == 0 {
+		// a stretch that is missing in every sequence (an amplicon drop-out, alignment padding), covering whole blocks of a grid
+		B := rapid.SampledFrom([]int{64, 128, 256, 256, 512}).Draw(t, "sharedGrid")
+		if nb := w / B; nb >= 1 {
+			a := B * rapid.IntRange(0, nb-1).Draw(t, "sharedFrom")
+			b := a + B*rapid.IntRange(1, 2).Draw(t, "sharedBlocks")
+			if b > w {
+				b = w
+			}
+			sym := rapid.SampledFrom([]byte{'N', '-', '-', '?'}).Draw(t, "sharedSym")
+			mask := func(recs []FaRec) {
+				for i := range recs {
+					q := []byte(recs[i].Seq)
+					for j := a; j < b; j++ {
+						q[j] = sym
+					}
+					recs[i].Seq = string(q)
+				}
+			}
+			mask(c.Queries)
+			mask(c.Targets)
+		}
+	}
 	for i := range c.Queries {
 		c.Queries[i].Seq = randomCase(t, c.Queries[i].Seq, "qcase")
 	}
